@@ -4,8 +4,9 @@
 // repository. State = the history that reaches it; successor = fresh repository
 // + replay + one more call; canonical state = (multiset of signature manifests
 // attached to the artifact, artifact annotations as the repository reports them).
-// Three repositories: an instrumented mock that hands out THE SAME descriptor
-// object on every Resolve, the real registry.NewOCIRepository on a scratch
+// Repositories: an instrumented mock that hands out THE SAME descriptor
+// object on every Resolve (also in a variant that implements the optional
+// content.Fetcher capability), the real registry.NewOCIRepository on a scratch
 // on-disk OCI layout (re-opened from disk when reading back), and
 // registry.NewRepository over the oras memory store. The last call of every
 // history is judged against a reference model written from the statement, with
@@ -16,6 +17,7 @@ import (
 	"bytes"
 	"context"
 	"crypto/sha256"
+	_ "crypto/sha512" // sha384 / sha512 digest references
 	"encoding/base64"
 	"encoding/hex"
 	"encoding/json"
@@ -201,6 +203,8 @@ type artifact struct {
 	Ann                     map[string]string  // annotations of the descriptor as tagged / handed out (nil: none)
 	OtherDigest             digest.Digest      // well-formed digest of content that is in no repository
 	refs                    []refT
+	shapeRefs               []refT // digest-reference shapes (algorithm x content x spelling), see digestShapeRefs
+	Rich                    bool   // the descriptor the real stores resolve for the tag carries platform, artifactType and urls too
 	mockExtraURLs           []string
 	mockExtraArtifactType   string
 	mockExtraPlatformOS     string
@@ -216,6 +220,10 @@ func buildArtifact(name string) *artifact {
 	a.LayerDesc = descOf("application/vnd.oci.image.layer.v1.tar", a.Layer)
 	if name == "annotated" {
 		a.Ann = map[string]string{"a": "1", "e": "", annCreated: "2001-02-03T04:05:06Z"} // "e": present with the empty string as value
+	}
+	if name == "rich" {
+		a.Ann = map[string]string{"a": "1"}
+		a.Rich = true
 	}
 	mb, err := json.Marshal(imageManifest{SchemaVersion: 2, MediaType: mtImage, Config: a.CfgDesc, Layers: []ocispec.Descriptor{a.LayerDesc}, Annotations: a.Ann})
 	if err != nil {
@@ -237,11 +245,76 @@ func buildArtifact(name string) *artifact {
 		{Label: "full-digest", Text: "reg.io/r@" + d, Reduced: d, IsDigest: true, Digest: a.Desc.Digest},
 		{Label: "other-digest", Text: a.OtherDigest.String(), Reduced: a.OtherDigest.String(), IsDigest: true, Digest: a.OtherDigest},
 	}
+	a.shapeRefs = digestShapeRefs(a)
 	return a
+}
+
+// Digest-reference shapes: algorithm of the reference {sha256, sha384, sha512} x content it names {the artifact's
+// manifest bytes, bytes that are in no repository} x spelling {bare digest, repository@digest, repository:tag@digest}.
+// Three of the 18 are references of the base alphabet (digest, full-digest, other-digest) and keep their labels.
+// "-same" references in sha384 / sha512 name the very bytes of the artifact, but their digest STRING differs from the
+// (sha256) digest every repository of this harness resolves: whether such a reference "resolves to a different
+// digest" is not fixed by the statement, the outcome of these calls is recorded only (Flexible).
+var (
+	shapeAlgs      = []digest.Algorithm{digest.SHA256, digest.SHA384, digest.SHA512}
+	shapeContents  = []string{"same", "other"}
+	shapeSpellings = []string{"bare", "full", "tag-at-digest"}
+)
+
+func shapeLabel(alg digest.Algorithm, content, spelling string) string {
+	if alg == digest.SHA256 {
+		switch content + "/" + spelling {
+		case "same/bare":
+			return "digest"
+		case "same/full":
+			return "full-digest"
+		case "other/bare":
+			return "other-digest"
+		}
+	}
+	return string(alg) + "-" + content + "-" + spelling
+}
+
+func digestShapeRefs(a *artifact) []refT {
+	other := []byte("c11: content of another artifact that no repository of this harness holds (" + a.Name + ")")
+	var out []refT
+	for _, alg := range shapeAlgs {
+		for _, content := range shapeContents {
+			b := a.Manifest
+			if content == "other" {
+				b = other
+			}
+			d := alg.FromBytes(b)
+			for _, sp := range shapeSpellings {
+				text := d.String()
+				switch sp {
+				case "full":
+					text = "reg.io/r@" + d.String()
+				case "tag-at-digest":
+					text = "reg.io/r:" + tagV1 + "@" + d.String()
+				}
+				out = append(out, refT{Label: shapeLabel(alg, content, sp), Text: text, Reduced: d.String(), IsDigest: true, Digest: d,
+					Flexible: content == "same" && alg != digest.SHA256})
+			}
+		}
+	}
+	return out
 }
 
 // mockDesc is a fresh descriptor object for the mock (its own map, slice, pointer).
 func (a *artifact) mockDesc() ocispec.Descriptor {
+	d := a.Desc
+	d.Annotations = copyMap(a.Ann)
+	d.URLs = append([]string{}, a.mockExtraURLs...)
+	d.ArtifactType = a.mockExtraArtifactType
+	d.Platform = &ocispec.Platform{OS: a.mockExtraPlatformOS, Architecture: a.mockExtraPlatformArch, OSFeatures: append([]string{}, a.mockExtraPlatformOSFeat...)}
+	d.Data = append([]byte{}, a.Manifest...) // embedded content
+	return d
+}
+
+// richDesc is the descriptor the rich artifact is tagged with in the real stores (an index.json entry as containerd /
+// docker write it: with a platform; here also with an artifact type and urls): a fresh object.
+func (a *artifact) richDesc() ocispec.Descriptor {
 	d := a.Desc
 	d.Annotations = copyMap(a.Ann)
 	d.URLs = append([]string{}, a.mockExtraURLs...)
@@ -259,6 +332,7 @@ type refT struct {
 	Reduced  string
 	IsDigest bool
 	Digest   digest.Digest
+	Flexible bool // a digest of the artifact's own bytes in another algorithm than the resolved digest: either outcome allowed
 }
 
 type mdT struct {
@@ -299,11 +373,12 @@ var signerKinds = []string{"generic-wrapped-chain3", "instrumented-backdated-cha
 // alphabetT: 5 references x the first NMD metadata maps x NFmt formats (NFmt = 1: the format
 // alternates with reference number + metadata number instead of being a dimension).
 type alphabetT struct {
-	Name string
-	NMD  int
-	NFmt int
-	Ops  []opT  // non-nil: the alphabet is this explicit list (signer spelled out per operation, independent of the position)
-	Env  string // non-empty: the histories run while the process environment has this profile (see envProfiles)
+	Name      string
+	NMD       int
+	NFmt      int
+	Ops       []opT    // non-nil: the alphabet is this explicit list (signer spelled out per operation, independent of the position)
+	Env       string   // non-empty: the histories run while the process environment has this profile (see envProfiles)
+	Artifacts []string // nil: plain and annotated
 }
 
 // Process environment profiles (the statement holds in every environment): variables that build systems,
@@ -362,11 +437,13 @@ func envAlphabet(profile string) alphabetT {
 }
 
 var (
-	coreAlphabet = alphabetT{Name: "core", NMD: 4, NFmt: 2}
-	fullAlphabet = alphabetT{Name: "full", NMD: len(mds), NFmt: 2}
-	wideAlphabet = alphabetT{Name: "full-metadata-one-format", NMD: len(mds), NFmt: 1}
-	annAlphabet  = signerAnnotationAlphabet()
-	dupAlphabet  = identicalEnvelopeAlphabet()
+	coreAlphabet  = alphabetT{Name: "core", NMD: 4, NFmt: 2}
+	fullAlphabet  = alphabetT{Name: "full", NMD: len(mds), NFmt: 2}
+	wideAlphabet  = alphabetT{Name: "full-metadata-one-format", NMD: len(mds), NFmt: 1}
+	annAlphabet   = signerAnnotationAlphabet()
+	dupAlphabet   = identicalEnvelopeAlphabet()
+	verbAlphabet  = verbatimAlphabet()
+	shapeAlphabet = digestShapeAlphabet()
 )
 
 func (a alphabetT) size() int {
@@ -451,6 +528,44 @@ func identicalEnvelopeAlphabet() alphabetT {
 	return alphabetT{Name: "byte-identical-envelopes", Ops: ops}
 }
 
+// verbatimAlphabet: the signer that signs every member it is handed x {tag, digest} x {no metadata, disjoint,
+// colliding, reserved metadata} x 2 formats, plus two operations of the recording GenericSigner (so that histories mix
+// the signers and calls with and without metadata on one reference). It runs on three artifacts: the third ("rich") is
+// tagged in the real stores with a descriptor that carries platform, artifactType and urls (an index.json entry as
+// container runtimes write it); the mock hands out platform, artifactType, urls and data for every artifact.
+func verbatimAlphabet() alphabetT {
+	var ops []opT
+	for _, ref := range []string{"tag", "digest"} {
+		for _, md := range []string{"none", "disjoint", "colliding", "reserved"} {
+			for _, f := range formats {
+				ops = append(ops, opT{Ref: ref, MD: md, Format: f, Signer: verbatimKind})
+			}
+		}
+	}
+	ops = append(ops, opT{Ref: "tag", MD: "none", Format: "cose", Signer: "generic-wrapped-chain3"}, opT{Ref: "tag", MD: "disjoint", Format: "jws", Signer: "generic-wrapped-chain3"})
+	return alphabetT{Name: "every-descriptor-member-signed", Ops: ops, Artifacts: []string{"plain", "annotated", "rich"}}
+}
+
+// digestShapeAlphabet: the 18 digest-reference shapes (3 algorithms x 2 contents x 3 spellings) x {no metadata,
+// disjoint metadata}; format and signer kind rotate. Run on the repositories that answer every reference with the
+// artifact (mock: no content.Fetcher; mock-fetcher: the same repository that also implements content.Fetcher;
+// memory: the real registry client, every shape tagged to the artifact) and on the on-disk layout.
+func digestShapeAlphabet() alphabetT {
+	var ops []opT
+	n := 0
+	for _, alg := range shapeAlgs {
+		for _, content := range shapeContents {
+			for _, sp := range shapeSpellings {
+				for _, md := range []string{"none", "disjoint"} {
+					ops = append(ops, opT{Ref: shapeLabel(alg, content, sp), MD: md, Format: formats[n%2], Signer: signerKinds[n%3]})
+					n++
+				}
+			}
+		}
+	}
+	return alphabetT{Name: "digest-reference-shapes", Ops: ops}
+}
+
 func (a alphabetT) opAt(idx, step int) opT {
 	if a.Ops != nil {
 		return a.Ops[idx]
@@ -531,10 +646,16 @@ func (w *wrapSigner) Sign(c context.Context, desc ocispec.Descriptor, opts notat
 // descriptor, signs its four payload fields with notation-core-go (signing time
 // = a fixed instant 2 h in the past) and returns the SignerInfo of the envelope.
 type backSigner struct {
-	chain *pki.Chain
-	when  time.Time
-	rec   *recorded
+	chain    *pki.Chain
+	when     time.Time
+	rec      *recorded
+	verbatim bool // sign EVERY member of the descriptor handed over (targetArtifact = the descriptor as JSON), not just the four
 }
+
+// verbatimKind: a notation.Signer that signs the descriptor it is handed as it is (all members). With it the signature
+// is over exactly what SignOCI hands to the signer, so the statement's "signature over exactly the resolved descriptor
+// plus the user metadata" is decided on the stored envelope for every member of the resolved descriptor.
+const verbatimKind = "instrumented-verbatim-chain2"
 
 func (b *backSigner) Sign(c context.Context, desc ocispec.Descriptor, opts notation.SignerSignOptions) ([]byte, *signature.SignerInfo, error) {
 	b.rec.calls++
@@ -547,6 +668,9 @@ func (b *backSigner) Sign(c context.Context, desc ocispec.Descriptor, opts notat
 		Annotations map[string]string `json:"annotations,omitempty"`
 	}
 	payload, err := json.Marshal(map[string]any{"targetArtifact": target{desc.MediaType, desc.Digest, desc.Size, desc.Annotations}})
+	if b.verbatim {
+		payload, err = json.Marshal(map[string]any{"targetArtifact": desc})
+	}
 	if err != nil {
 		return nil, nil, err
 	}
@@ -643,6 +767,9 @@ func (s *signers) make(kind string) (notation.Signer, *recorded, *pki.Chain, err
 		return &backSigner{chain: s.chain2, when: s.backdate, rec: rec}, rec, s.chain2, nil
 	case "generic-raw-chain2":
 		return s.gen2, nil, s.chain2, nil
+	case verbatimKind:
+		rec := &recorded{}
+		return &backSigner{chain: s.chain2, when: s.backdate.Add(-15 * time.Minute), rec: rec, verbatim: true}, rec, s.chain2, nil
 	case replayKind:
 		rec := &recorded{}
 		return &replaySigner{back: &backSigner{chain: s.chain2, when: s.backdate.Add(-30 * time.Minute), rec: rec}, cache: map[string]replayed{}}, rec, s.chain2, nil
@@ -772,8 +899,9 @@ func (c *countTarget) Push(cx context.Context, d ocispec.Descriptor, rd io.Reade
 }
 
 type world struct {
-	kind string // mock | disk | memory
+	kind string // mock | mock-fetcher | disk | memory
 	art  *artifact
+	refs []refT // the references this world knows (base alphabet; plus the digest-reference shapes when a history uses one)
 	dir  string
 	sg   *signers
 
@@ -830,15 +958,35 @@ func scratchDir() string {
 	return filepath.Join(hx.Scratch(), fmt.Sprintf("c11-%d-%d", os.Getpid(), scratchSeq.Add(1)))
 }
 
-func newWorld(kind string, art *artifact, sg *signers) (*world, error) {
+func newWorld(kind string, art *artifact, sg *signers, withShapes bool) (*world, error) {
 	w := &world{kind: kind, art: art, sg: sg, snap: map[string]resolved{}}
+	w.refs = art.refs
+	if withShapes {
+		have := map[string]bool{}
+		for _, rf := range art.refs {
+			have[rf.Label] = true
+		}
+		w.refs = append([]refT{}, art.refs...)
+		for _, rf := range art.shapeRefs {
+			if !have[rf.Label] {
+				w.refs = append(w.refs, rf)
+			}
+		}
+	}
 	tagged := art.Desc
 	tagged.Annotations = copyMap(art.Ann)
+	if art.Rich {
+		tagged = art.richDesc()
+	}
 	switch kind {
 	case "mock":
 		w.mock = &mockRepo{desc: art.mockDesc()}
 		w.mockCp = deepCopyDesc(w.mock.desc)
 		w.repo = w.mock
+	case "mock-fetcher":
+		w.mock = &mockRepo{desc: art.mockDesc()}
+		w.mockCp = deepCopyDesc(w.mock.desc)
+		w.repo = &mockFetchRepo{mockRepo: w.mock, digest: art.Desc.Digest, content: art.Manifest}
 	case "disk":
 		w.dir = scratchDir()
 		if err := os.MkdirAll(w.dir, 0o755); err != nil {
@@ -896,6 +1044,15 @@ func newWorld(kind string, art *artifact, sg *signers) (*world, error) {
 		if err := st.Tag(ctx, art.Desc, art.OtherDigest.String()); err != nil {
 			return nil, err
 		}
+		// ... likewise every further digest-reference shape (sha384 / sha512 digests of the artifact's bytes and of other bytes)
+		for _, rf := range w.refs {
+			if rf.Reduced == tagV1 || rf.Reduced == art.Desc.Digest.String() || rf.Reduced == art.OtherDigest.String() {
+				continue
+			}
+			if err := st.Tag(ctx, art.Desc, rf.Reduced); err != nil {
+				return nil, err
+			}
+		}
 		w.count = &countTarget{GraphTarget: st}
 		w.repo, w.target = registry.NewRepository(w.count), st
 	default:
@@ -903,7 +1060,7 @@ func newWorld(kind string, art *artifact, sg *signers) (*world, error) {
 	}
 	// snapshots before the first call
 	seen := map[string]bool{}
-	for _, rf := range art.refs {
+	for _, rf := range w.refs {
 		if seen[rf.Reduced] {
 			continue
 		}
@@ -982,7 +1139,7 @@ func indexEntries(dir string, dg digest.Digest) ([]string, error) {
 // pushMark describes everything a push would change (compared before/after a refused call).
 func (w *world) pushMark() (string, error) {
 	switch w.kind {
-	case "mock":
+	case "mock", "mock-fetcher":
 		return fmt.Sprintf("%d pushes, %d signatures", len(w.mock.pushLog), len(w.mock.sigs)), nil
 	case "memory":
 		return fmt.Sprintf("%d pushes", w.count.pushes), nil
@@ -1016,7 +1173,7 @@ func (w *world) pushMark() (string, error) {
 }
 
 func (w *world) ref(label string) (refT, bool) {
-	for _, rf := range w.art.refs {
+	for _, rf := range w.refs {
 		if rf.Label == label {
 			return rf, true
 		}
@@ -1037,7 +1194,7 @@ func mdOf(label string) (mdT, bool) {
 // digest, size and annotations (resolved annotations + metadata) must be there and equal; any further member of
 // targetArtifact must be a member of the resolved descriptor with the same value (recorded). Members beside
 // targetArtifact are recorded only.
-func payloadProblem(payload []byte, resolved, exp ocispec.Descriptor) (key, detail string, notes []string) {
+func payloadProblem(payload []byte, resolved, exp ocispec.Descriptor, verbatim bool) (key, detail string, notes []string) {
 	var top map[string]json.RawMessage
 	if err := json.Unmarshal(payload, &top); err != nil {
 		return "payload/not-json", err.Error(), nil
@@ -1080,6 +1237,30 @@ func payloadProblem(payload []byte, resolved, exp ocispec.Descriptor) (key, deta
 	if got.MediaType != exp.MediaType || got.Digest != exp.Digest.String() || got.Size != exp.Size || !sameMapLoose(got.Annotations, exp.Annotations) {
 		return "payload/not-resolved-descriptor-plus-metadata", fmt.Sprintf("signed %s/%s/%d annotations %s, resolved descriptor plus metadata is %s/%s/%d annotations %s",
 			got.MediaType, got.Digest, got.Size, mapString(got.Annotations), exp.MediaType, exp.Digest, exp.Size, mapString(exp.Annotations)), notes
+	}
+	// a signer that signs every member it is handed: the signed descriptor is exactly the resolved descriptor plus the
+	// metadata, member by member (annotations were compared above)
+	if verbatim {
+		ej, _ := json.Marshal(exp)
+		var ef map[string]json.RawMessage
+		_ = json.Unmarshal(ej, &ef)
+		for _, k := range sortedRawKeys(ef) {
+			if k == "annotations" {
+				continue
+			}
+			var a, b any
+			got, ok := f[k]
+			if !ok || json.Unmarshal(got, &a) != nil || json.Unmarshal(ef[k], &b) != nil || !reflect.DeepEqual(a, b) {
+				if !ok {
+					got = json.RawMessage("absent")
+				}
+				want := string(ef[k])
+				if len(want) > 200 {
+					want = want[:200] + "..."
+				}
+				return "payload/member-of-resolved-descriptor-not-signed", fmt.Sprintf("a signer that signs every member it is handed produced a signature over %s: member %q, which the repository resolved as %s, is %s there", ta, k, want, got), notes
+			}
+		}
 	}
 	return "", "", notes
 }
@@ -1129,19 +1310,30 @@ func (w *world) apply(step int, op opT, judge bool) (vs []viol, class string, su
 	// reference model (from the statement; everything is read from the snapshot taken before the FIRST call)
 	snap := w.snap[rf.Reduced]
 	reason := ""
+	mdReason := "" // why the metadata alone would be refused
+	if snap.Err == nil {
+		if md.Reserved {
+			mdReason = "metadata key under the reserved prefix"
+		} else {
+			for _, k := range sortedKeys(md.Map) {
+				if _, ok := snap.Desc.Annotations[k]; ok {
+					mdReason = "metadata key is an annotation of the resolved artifact"
+				}
+			}
+		}
+	}
+	// flexible: the reference is the digest of the artifact's own bytes in another algorithm than the digest the
+	// repository resolved. The strings differ, the content does not: the statement does not say which of the two
+	// "a different digest" means, so a refusal and a success are both allowed (unless the metadata must be refused).
+	flexible := false
 	switch {
 	case snap.Err != nil:
 		reason = "reference does not resolve"
 	case rf.IsDigest && snap.Desc.Digest != rf.Digest:
 		reason = "digest reference resolves to another digest"
-	case md.Reserved:
-		reason = "metadata key under the reserved prefix"
+		flexible = rf.Flexible && snap.Desc.Digest == w.art.Desc.Digest
 	default:
-		for _, k := range sortedKeys(md.Map) {
-			if _, ok := snap.Desc.Annotations[k]; ok {
-				reason = "metadata key is an annotation of the resolved artifact"
-			}
-		}
+		reason = mdReason
 	}
 	wantOK := reason == ""
 
@@ -1172,6 +1364,17 @@ func (w *world) apply(step int, op opT, judge bool) (vs []viol, class string, su
 	w.evals++
 	gotArt, gotSig, serr := notation.SignOCI(ctx, sgn, w.repo, opts)
 	succeeded = serr == nil
+	if flexible {
+		switch {
+		case mdReason != "":
+			reason = mdReason // refused for the metadata whatever the reference is taken for
+		case succeeded:
+			reason, wantOK = "", true
+			w.notes = append(w.notes, "recorded:args/digest-of-the-same-content-in-another-algorithm-accepted (not judged)")
+		default:
+			reason = "digest reference in another algorithm than the resolved digest, same content (not judged)"
+		}
+	}
 
 	if w.mock == nil {
 		w.evals++
@@ -1444,7 +1647,7 @@ func (w *world) judgeSuccess(add func(string, string, ...any), op opT, mt string
 		note("envelope/chain-differs-from-the-configured-chain")
 	}
 	// payload == resolved descriptor + metadata
-	key, detail, pnotes := payloadProblem(res.Payload, snap.Desc, exp)
+	key, detail, pnotes := payloadProblem(res.Payload, snap.Desc, exp, op.Signer == verbatimKind)
 	if key != "" {
 		add(key, "%s", detail)
 	}
@@ -1454,7 +1657,7 @@ func (w *world) judgeSuccess(add func(string, string, ...any), op opT, mt string
 	// the signature manifest as stored (read underneath the API)
 	var mb []byte
 	switch w.kind {
-	case "mock":
+	case "mock", "mock-fetcher":
 		b, ok := w.mock.manifestJSON(nd.Digest)
 		if !ok {
 			add("push/manifest-not-in-store", "manifest %s is not among the pushed ones", nd.Digest)
@@ -1636,7 +1839,15 @@ func runHistory(c histCase) (res histResult) {
 		res.infra = fmt.Errorf("unknown artifact %q", c.Artifact)
 		return
 	}
-	w, err := newWorld(c.Repository, art, theSigs)
+	withShapes := false // a history that uses a digest-reference shape runs in a world that knows all of them
+	for _, op := range c.Ops {
+		base := false
+		for _, rf := range art.refs {
+			base = base || rf.Label == op.Ref
+		}
+		withShapes = withShapes || !base
+	}
+	w, err := newWorld(c.Repository, art, theSigs, withShapes)
 	if err != nil {
 		res.infra = err
 		return
@@ -1878,7 +2089,7 @@ func replay(r *hx.Run) {
 
 func main() {
 	r := hx.New("C11")
-	r.Rule = "every sequence of 1..d operations over an alphabet of 5 references x metadata maps x 2 envelope formats (full: 10 maps incl. 5 reserved-prefix shapes and 2 near misses = 100 operations, d = 2 on every repository; the same with one format per (reference, metadata) = 50 operations, thorough d = 3 on the mock; core: the first 4 maps = 40 operations, thorough d = 3 on every repository; the signer kind rotates with operation number + position; signer-annotations: 48 operations = 2 instrumented signers x 6 answers of PluginAnnotations() {nil, empty, unrelated key, thumbprint key, created key, all three} x 2 references x 2 metadata maps, one signer object per kind and history, d = 2 on every repository, thorough d = 3 on the mock) is replayed on a fresh repository (mock handing out one descriptor object / on-disk OCI layout opened by registry.NewOCIRepository / oras memory store) for each of 2 artifacts; the LAST call of every history is judged against the reference model and the before-first-call snapshots (earlier calls were judged as last call of the shorter history); canonical state = (multiset of signature manifests by format and signed annotations, artifact annotations as reported for the tag); non-trivial = distinct histories of length >= 2 with at least one successful signing call"
+	r.Rule = "every sequence of 1..d operations over an alphabet of 5 references x metadata maps x 2 envelope formats (full: 16 maps incl. 5 reserved-prefix shapes, 2 near misses, 3 empty-string shapes and 3 maps with runes a sanitiser would touch = 160 operations, d = 2 on every repository; the same with one format per (reference, metadata) = 80 operations, thorough d = 3 on the mock; core: the first 4 maps = 40 operations, thorough d = 3 on every repository; the signer kind rotates with operation number + position; signer-annotations: 48 operations = 2 instrumented signers x 6 answers of PluginAnnotations() {nil, empty, unrelated key, thumbprint key, created key, all three} x 2 references x 2 metadata maps, one signer object per kind and history, d = 2 on every repository, thorough d = 3 on the mock; every-descriptor-member-signed: 18 operations = a signer that signs EVERY member of the descriptor it is handed x {tag, digest} x {no, disjoint, colliding, reserved metadata} x 2 formats + 2 operations of the recording GenericSigner, d = 2 on every repository for 3 artifacts - the third one is tagged in the real stores with a descriptor carrying platform, artifactType and urls, the mock hands out platform, artifactType, urls and data for every artifact; digest-reference-shapes: 36 operations = digest references in {sha256, sha384, sha512} x naming {the artifact's own bytes, bytes no repository holds} x spelled {bare, repository@digest, repository:tag@digest} x {no, disjoint metadata}, d = 2 on the mock (no content.Fetcher), on the same mock that also implements content.Fetcher and on the memory store (every shape tagged to the artifact), d = 1 on the on-disk layout) is replayed on a fresh repository (mock handing out one descriptor object, with or without the optional content.Fetcher capability / on-disk OCI layout opened by registry.NewOCIRepository / oras memory store) for each of 2 artifacts (3 for the every-descriptor-member-signed family); the LAST call of every history is judged against the reference model and the before-first-call snapshots (earlier calls were judged as last call of the shorter history); canonical state = (multiset of signature manifests by format and signed annotations, artifact annotations as reported for the tag); non-trivial = distinct histories of length >= 2 with at least one successful signing call"
 	r.Assumptions = []string{
 		"ECDSA P-256 / SHA-256 are sound; the stored envelope is checked by lib/refsig (standard library only), signing time and certificates are decoded by hand from the JWS / COSE headers",
 		"what a reference resolves to is the repository's own answer before the first call (mock: everything resolves to the artifact; stores: the tag, the artifact's digest; the memory store has the digest tagged with the annotated descriptor and the other digest tagged with the artifact's plain descriptor, oci.Store does not resolve the other digest, returns a plain descriptor for a digest and adds org.opencontainers.image.ref.name for a tag read from index.json)",
@@ -1886,6 +2097,8 @@ func main() {
 		"'annotation of the artifact' = annotation of the descriptor the repository resolved for that reference before the first call",
 		"signer kinds: real GenericSigner behind a recording wrapper (3 certificates), real GenericSigner unwrapped (2 certificates), instrumented signer of the harness that signs with notation-core-go at an instant 2 h in the past (2 certificates); the signer is not part of the options, so two calls with the same reference, metadata and format count as identical",
 		"annotating signers wrap the recording GenericSigner / the backdating signer and implement PluginAnnotations() returning one map object for the life of the repository; the backdating signer moves 1 h further into the past with every call of one object; whether the signer's own annotation reaches the manifest and whether SignOCI writes into the signer's map is recorded, not judged (the statement names neither)",
+		"a digest reference in sha384 / sha512 that names the artifact's own bytes differs as a string from the sha256 digest every repository here resolves but names the same content: the statement does not say which of the two 'a different digest' means, so refusal and success are both allowed for these 6 shapes (recorded; a success is judged like any other success); the 6 shapes naming other bytes must be refused on every repository that resolves them, whatever their algorithm, spelling and whatever optional interfaces the repository implements",
+		"a signer that signs every member of the descriptor it is handed makes the stored signature a signature over exactly what SignOCI handed over: for it every member of the resolved descriptor (platform, artifactType, urls, data besides the four) must be in the signed payload with the resolved value; for signers that sign four members only (GenericSigner) further members stay recorded",
 		"enforced: outcome of the call (model), one new referrer after a success / none after a refusal, a verifying envelope whose payload is the resolved descriptor's media type, digest, size and annotations + metadata, the same four fields handed to an instrumented signer, a subject naming the resolved artifact without metadata or foreign annotations, thumbprints of the envelope's certificates and the envelope's signing time on the manifest, unchanged Resolve answers / handed-out object / index.json entry / caller maps. Recorded only (outcome classes 'recorded:...'): returned descriptors, number of Sign / PushSignature calls, further descriptor fields shown to the signer or signed, envelope format vs requested, payload content type, envelope chain vs configured chain, manifest layout (layer, config type), content left behind by a refused call",
 		"manifest annotations other than the thumbprints and the creation time are not judged; the descriptors returned by a refused call are not judged",
 		"on-disk layout: only the artifact's own index.json entries are compared; after a refused call the whole directory (names, sizes, index.json bytes) must be unchanged",
@@ -1895,14 +2108,14 @@ func main() {
 		r.Infra("signers: %v", err)
 		r.Finish()
 	}
-	for _, n := range []string{"plain", "annotated"} {
+	for _, n := range []string{"plain", "annotated", "rich"} {
 		artifacts[n] = buildArtifact(n)
 	}
 	if r.Replay != "" {
 		replay(r)
 		r.Finish()
 	}
-	// quick: all histories of depth <= 2 over the full alphabet (100 operations) on every repository (the second
+	// quick: all histories of depth <= 2 over the full alphabet (160 operations) on every repository (the second
 	// identical call is where sharing shows). thorough adds depth 3: over the core alphabet (40 operations) on every
 	// repository and over all 10 metadata maps with one format per (reference, metadata) (50 operations) on the mock (the core alphabet's depths 1 and 2 are contained in the full one's).
 	type plan struct {
@@ -1921,11 +2134,15 @@ func main() {
 	}
 	plans := []plan{
 		{dupAlphabet, map[string]int{"mock": 3, "disk": 3, "memory": 3}, 1},
+		{verbAlphabet, map[string]int{"mock": 2, "disk": 2, "memory": 2}, 1},
+		{shapeAlphabet, map[string]int{"mock": 2, "mock-fetcher": 2, "disk": 1, "memory": 2}, 1},
 		{annAlphabet, map[string]int{"mock": 2, "disk": 2, "memory": 2}, 1},
 		{fullAlphabet, map[string]int{"mock": 2, "disk": 2, "memory": 2}, 1},
 	}
 	if r.Thorough() {
 		plans = []plan{
+			{verbAlphabet, map[string]int{"mock": 3, "disk": 2, "memory": 2}, 1},
+			{shapeAlphabet, map[string]int{"mock": 2, "mock-fetcher": 2, "disk": 2, "memory": 2}, 1},
 			{dupAlphabet, map[string]int{"mock": 3, "disk": 3, "memory": 3}, 1},
 			{fullAlphabet, map[string]int{"mock": 2, "disk": 2, "memory": 2}, 1},
 			{coreAlphabet, map[string]int{"mock": 3, "disk": 3, "memory": 3}, 3},
@@ -1937,7 +2154,7 @@ func main() {
 		r.SetDeadline(40 * time.Second)
 	}
 	plans = append(envPlans, plans...)
-	kinds := []string{"mock", "disk", "memory"}
+	kinds := []string{"mock", "mock-fetcher", "disk", "memory"}
 	requested := map[string]int{}
 	r.Extra["environment_profiles"] = envProfileNames
 	for d := 1; d <= 3; d++ { // shorter histories of every family first (also what a capped run has completed)
@@ -1949,7 +2166,11 @@ func main() {
 				if key := p.alpha.Name + " alphabet: " + k; p.depth[k] > requested[key] {
 					requested[key] = p.depth[k]
 				}
-				for _, a := range []string{"plain", "annotated"} {
+				arts := p.alpha.Artifacts
+				if arts == nil {
+					arts = []string{"plain", "annotated"}
+				}
+				for _, a := range arts {
 					exploreLevel(r, p.alpha, k, a, d)
 				}
 			}
@@ -1959,7 +2180,7 @@ func main() {
 	statesMu.Lock()
 	r.State(len(states))
 	statesMu.Unlock()
-	r.Extra["operations"] = map[string]int{"full": fullAlphabet.size(), "core": coreAlphabet.size(), wideAlphabet.Name: wideAlphabet.size(), annAlphabet.Name: annAlphabet.size(), dupAlphabet.Name: dupAlphabet.size()}
+	r.Extra["operations"] = map[string]int{"full": fullAlphabet.size(), "core": coreAlphabet.size(), wideAlphabet.Name: wideAlphabet.size(), annAlphabet.Name: annAlphabet.size(), dupAlphabet.Name: dupAlphabet.size(), verbAlphabet.Name: verbAlphabet.size(), shapeAlphabet.Name: shapeAlphabet.size()}
 	r.Extra["references"] = refLabels
 	var mdNames []string
 	for _, m := range mds {
@@ -1970,7 +2191,21 @@ func main() {
 		mdNames = append(mdNames, fmt.Sprintf("%s %s (%s)", m.Label, mapString(m.Map), rs))
 	}
 	r.Extra["metadata_maps"] = mdNames
-	r.Extra["signer_kinds"] = signerKinds
+	r.Extra["signer_kinds"] = append(append([]string{}, signerKinds...), replayKind, verbatimKind)
+	var shapeNames []string
+	for _, rf := range artifacts["plain"].shapeRefs {
+		kind := "must be the resolved digest"
+		switch {
+		case rf.Flexible:
+			kind = "same content, other algorithm: either outcome"
+		case rf.Digest != artifacts["plain"].Desc.Digest:
+			kind = "other content: refused wherever it resolves"
+		}
+		shapeNames = append(shapeNames, rf.Label+" ("+kind+")")
+	}
+	r.Extra["digest_reference_shapes"] = shapeNames
+	r.Extra["descriptor_members_beyond_the_four"] = map[string][]string{"mock (every artifact)": {"platform", "artifactType", "urls", "data"}, "disk / memory, tag of the rich artifact": {"platform", "artifactType", "urls"}}
+	r.Extra["repository_kinds"] = kinds
 	r.Extra["signer_plugin_annotation_kinds"] = paKinds
 	r.Extra["depth_requested"] = requested
 	levelsDoneM.Lock()
